@@ -59,6 +59,7 @@ impl Outcome {
         self.events += res.log.len() as u64;
         self.sim_ns += res.clock_ns;
         self.fault("virtual_sleep", res.sleeps);
+        self.probe("seam_calls_from_threads_spawned_by_the_sut", res.foreign_thread_calls);
         let mut eintr = 0;
         let mut eio = 0;
         let mut short = 0;
@@ -126,6 +127,7 @@ pub fn render_event(seq: usize, e: &Event) -> String {
         EvKind::GetRandom => format!("{:4} {} getrandom {} bytes", seq, who, e.req),
         EvKind::Deliver => format!("{:4} {} line   {}", seq, who, text),
         EvKind::Stat => format!("{:4} {} stat   file#{} -> size {}", seq, who, e.file, e.ret),
+        EvKind::Constructed => format!("{:4} hrns executor constructed (start-up over)", seq),
     };
     if e.landed > 0 {
         s.push_str(&format!("   [writer appended {} bytes first]", e.landed));
